@@ -35,7 +35,9 @@ static int compare_page(Report &r, vbi_decoder *dec, unsigned pgno, unsigned sub
 	if ((unsigned) pg.pgno != pgno || (unsigned) pg.subno != subno) return r.fail("C02:page-number", "%s: fetched page reports %x.%x, transmitted %x.%x", when, pg.pgno, pg.subno, pgno, subno);
 	int subset = ttx::subset_for_national(st.national);
 	bool newsflash = st.c5 || st.c6;
-	for (int row = 0; row <= 23; ++row) {
+	for (int row = 0; row <= 24; ++row) {
+		// row 24: with FLOF links (X/27/0) and no transmitted row 24 the decoder composes a navigation bar of its own there
+		if (row == 24 && st.have_x27 && !st.have[24]) break;
 		int raw[40];
 		if (row == 0) {
 			char buf[16]; snprintf(buf, sizeof buf, "\2%x.%02x\7", pgno, subno & 0xFF);
@@ -46,7 +48,7 @@ static int compare_page(Report &r, vbi_decoder *dec, unsigned pgno, unsigned sub
 		for (int pass = 0; pass < (out.double_height ? 2 : 1); ++pass) {
 			const ttx::Cell *cells = pass ? out.lower : out.c;
 			int y = row + pass;
-			if (y > 23) break;
+			if (y > 24) break;
 			for (int col = (row == 0 ? 8 : 0); col < 40; ++col) {
 				const vbi_char &g = pg.text[y * pg.columns + col];
 				const ttx::Cell &m = cells[col];
